@@ -89,7 +89,10 @@ func vfRecorderSpecV(timed bool, version int) *core.Spec {
 		Name:                "recorder",
 		ActionErrorBranches: true,
 		Nodes: map[string]*core.Node{
-			"start": {Branches: &core.Branches{Type: "message", Branches: []*core.Branch{{Pattern: "?m", Target: "rec"}}}},
+			// the whole message is bound by a bare variable; a guard lets a message say which
+			// machines shall ignore it (it is consumed, nothing is recorded, nothing changes)
+			"start": {Branches: &core.Branches{Type: "message", Branches: []*core.Branch{{Pattern: "?m", Target: "rec",
+				GuardSource: &core.ActionSource{Interpreter: "ecmascript", Source: `var m = _.bindings["?m"]; return (m && m.skip && m.skip[_.props.mid]) ? null : _.bindings;`}}}}},
 			"rec": {
 				ActionSource: &core.ActionSource{Interpreter: "ecmascript", Source: src},
 				Branches: &core.Branches{Type: "bindings", Branches: []*core.Branch{
@@ -209,6 +212,9 @@ func (g *vfGen) message(hops int) map[string]interface{} {
 			}
 		}
 		m["emit"] = em
+	}
+	if len(g.mids) > 0 && c.Chance(1, 6, "skips") {
+		m["skip"] = map[string]interface{}{g.mids[c.Intn(len(g.mids), "skipper")]: true}
 	}
 	if hops > 0 && len(g.mids) > 0 && c.Chance(1, 6, "forwards") {
 		targets := append(append([]string{}, g.mids...), "nobody")
@@ -370,6 +376,9 @@ func vfPredict(msg map[string]interface{}, present map[string]bool, recorders ma
 				}
 				if failAfter >= 0 || poisoned[mid] {
 					continue // a failing action emits nothing (and records nothing: its bindings are discarded)
+				}
+				if sk, ok := mm["skip"].(map[string]interface{}); ok && sk[mid] == true {
+					continue // rejected by the guard: consumed, not recorded
 				}
 				md.seen[mid] = append(md.seen[mid], id)
 				if fw, ok := mm["fwd"].(map[string]interface{}); ok {
